@@ -38,4 +38,14 @@ PROPS = {
         "trusted_base": ["statement abstraction: declarations, assignments, sends, inc/dec, go, defer collapse to SOther; closures are opaque expression statements with their own function context"],
         "assumptions": ["goto/break-label validity errors other than 'defined twice'/'never used' are outside the property"],
     },
+    "C16": {
+        "coq_models": ["theories/C16/Check.vo"],
+        "proof_dirs": ["C16"],
+        "results": ["K1"],
+        "level_text": "Theorem (mutual structural induction, arbitrary nesting): the canonical operation sequence of every statement / statement list / function, run on the abstract builder machine (operand-stack length, block base, scope and function identities, chain of saved block contexts; transitions transcribed from startBlockStmt/endBlockStmt/startFuncBody/endFuncBody and the Then/Else/Post/End methods), never takes an ill-formed step and returns exactly the state it started from; operation arities; endBlock truncation. The machine is compared with the real CodeBuilder after every single operation of random well-nested histories (stack length, scope pointer identity, current function), and the harness's operation sequence is checked to be the model's compile of the same body.",
+        "level_note": "Trusted: Coq kernel + vm_compute; the hand transcription of the block-context save/restore code; the operation alphabet abstracts operand values (only their count matters); label context and the valDecl chain are not observable through the public API and are not in the machine; SetCurFile/multi-file histories are not generated yet.",
+        "technique": "Coq proof (state-restoration invariant by mutual induction over statement syntax) + per-operation model/implementation correspondence in vm_compute",
+        "trusted_base": ["the harness statement IR and its Coq twin cstmt; mapping of harness op names to machine ops (harness/ir.go c16OpCode)"],
+        "assumptions": ["debug-mode leak panics (End with operands left) are not modelled: the generator only produces balanced bodies"],
+    },
 }
